@@ -88,3 +88,166 @@ def run_session(exe, messages, wait_ids, timeout=20.0, settle=1.0):
         if "id" in m and ("result" in m or "error" in m):
             res.setdefault(m["id"], []).append({k: m[k] for k in m if k in ("result", "error")})
     return {"responses": {str(k): v for k, v in res.items()}, "alive": alive, "n_messages": len(got)}
+
+
+# ----------------------------------------------------------------------------------------------
+# scripted client with the ability to withhold answers to server->client requests, used to open
+# deterministic windows (server still initializing / handlers blocked on the analysis lock)
+import queue
+import threading
+
+
+class Client:
+    def __init__(self, exe):
+        self.d = tempfile.mkdtemp(prefix="vlsp_")
+        with open(os.path.join(self.d, "a.lua"), "w") as f:
+            f.write("local a = 1\nprint(a)\n")
+        self.p = subprocess.Popen([exe], stdin=subprocess.PIPE, stdout=subprocess.PIPE, stderr=subprocess.DEVNULL, cwd=self.d)
+        self.got = []
+        self.lock = threading.Lock()
+        self.held = queue.Queue()
+        self.hold = None            # predicate over server->client requests whose answer is withheld
+        self.auto = None            # function(request) -> result for auto-answered server requests
+        self.t = threading.Thread(target=self._reader, daemon=True)
+        self.t.start()
+
+    def _reader(self):
+        buf = b""
+        fd = self.p.stdout.fileno()
+        while True:
+            try:
+                chunk = os.read(fd, 65536)
+            except OSError:
+                return
+            if not chunk:
+                return
+            buf += chunk
+            while True:
+                i = buf.find(b"\r\n\r\n")
+                if i < 0:
+                    break
+                n = 0
+                for line in buf[:i].decode(errors="replace").split("\r\n"):
+                    if line.lower().startswith("content-length:"):
+                        n = int(line.split(":")[1])
+                if len(buf) < i + 4 + n:
+                    break
+                body = buf[i + 4:i + 4 + n]
+                buf = buf[i + 4 + n:]
+                try:
+                    m = json.loads(body)
+                except Exception:
+                    continue
+                with self.lock:
+                    self.got.append(m)
+                if "method" in m and "id" in m:
+                    if self.hold and self.hold(m):
+                        self.held.put(m)
+                    else:
+                        res = self.auto(m) if self.auto else None
+                        self.send({"jsonrpc": "2.0", "id": m["id"], "result": res})
+
+    def send(self, obj):
+        try:
+            self.p.stdin.write(frame(obj))
+            self.p.stdin.flush()
+        except (BrokenPipeError, ValueError):
+            pass
+
+    def request(self, i, method, params):
+        self.send({"jsonrpc": "2.0", "id": i, "method": method, "params": params})
+
+    def notify(self, method, params):
+        self.send({"jsonrpc": "2.0", "method": method, "params": params})
+
+    def responses(self, i):
+        with self.lock:
+            return [m for m in self.got if m.get("id") == i and "method" not in m and ("result" in m or "error" in m)]
+
+    def wait(self, i, timeout):
+        t0 = time.time()
+        while time.time() - t0 < timeout:
+            if self.responses(i):
+                return True
+            time.sleep(0.05)
+        return False
+
+    def initialize(self, caps, wait=True):
+        root = "file://" + self.d
+        self.request(0, "initialize", {"processId": None, "rootUri": root, "capabilities": caps,
+                                       "workspaceFolders": [{"uri": root, "name": "w"}]})
+        self.wait(0, 60)
+        self.notify("initialized", {})
+
+    def stop(self):
+        try:
+            self.p.kill()
+        except Exception:
+            pass
+
+
+HOVER = {"textDocument": {"uri": "file:///c24/none.lua"}, "position": {"line": 0, "character": 0}}
+SYM = {"textDocument": {"uri": "file:///c24/none.lua"}}
+
+
+def session_cancel_during_init(exe):
+    """requests and their cancels arrive while the server is still initializing (cancel overtakes the request)"""
+    c = Client(exe)
+    c.hold = lambda m: m["method"] == "workspace/configuration"
+    c.initialize({"workspace": {"configuration": True}})
+    try:
+        cfg = c.held.get(timeout=60)
+    except Exception:
+        c.stop()
+        return {"setup_failed": "server did not ask for workspace/configuration"}
+    c.hold = None
+    ids = [20, 21, "s22", 23]
+    c.request(20, "textDocument/hover", HOVER)
+    c.request(21, "textDocument/documentSymbol", SYM)
+    c.request("s22", "textDocument/foldingRange", SYM)
+    c.request(23, "textDocument/hover", 42)
+    for i in (20, "s22", 23):
+        c.notify("$/cancelRequest", {"id": i})
+    time.sleep(1.0)
+    c.send({"jsonrpc": "2.0", "id": cfg["id"], "result": [None]})
+    c.request(25, "textDocument/hover", HOVER)
+    c.wait(25, 120)
+    for i in ids:
+        c.wait(i, 5)
+    time.sleep(0.5)
+    out = {str(i): len(c.responses(i)) for i in ids + [25]}
+    c.stop()
+    return out
+
+
+def session_cancel_in_flight(exe):
+    """requests are cancelled while their handlers are blocked on the analysis lock held by a workspace reload"""
+    c = Client(exe)
+    c.initialize({"workspace": {"configuration": True}, "window": {"workDoneProgress": True}})
+    time.sleep(1.0)
+    c.auto = lambda m: ([{"diagnostics": {"enable": False}} for _ in m["params"]["items"]]
+                        if m["method"] == "workspace/configuration" else None)
+    c.hold = lambda m: m["method"] == "window/workDoneProgress/create" and m["params"].get("token") == 0
+    c.notify("workspace/didChangeConfiguration", {"settings": None})
+    try:
+        create = c.held.get(timeout=60)
+    except Exception:
+        c.stop()
+        return {"setup_failed": "server did not start a workspace reload"}
+    ids = [10, 11, "s12"]
+    c.request(10, "textDocument/hover", HOVER)
+    c.request(11, "textDocument/documentSymbol", SYM)
+    c.request("s12", "textDocument/foldingRange", SYM)
+    time.sleep(0.3)
+    c.notify("$/cancelRequest", {"id": 10})
+    c.notify("$/cancelRequest", {"id": "s12"})
+    time.sleep(0.3)
+    c.send({"jsonrpc": "2.0", "id": create["id"], "result": None})
+    c.request(13, "textDocument/hover", HOVER)
+    c.wait(13, 120)
+    for i in ids:
+        c.wait(i, 5)
+    time.sleep(0.5)
+    out = {str(i): len(c.responses(i)) for i in ids + [13]}
+    c.stop()
+    return out
